@@ -36,6 +36,9 @@ PARAMS = {
     "roc_scalar": {"threshold": 0.25},
     "flat_ints": {"suspect_threshold": 3600, "fail_threshold": 7200, "tolerance": 0.01},
     "loc_bbox": {"bbox": [-80, 40, -70, 60]},
+    # values that a text format may be tempted to coerce: date-like and boolean-like strings, exponent notation
+    "clim_dates": {"config": [{"vspan": [1.5, 2], "tspan": ["2020-01-01", "2020-02-01T12:00:00"]}]},
+    "words": {"method": "no", "suspect_threshold": 1e3, "fail_threshold": 2.5e-3},
 }
 POLY2 = {"type": "Polygon", "coordinates": [[[-60.0, 30.0], [-58.0, 30.0], [-58.0, 32.0], [-60.0, 30.0]]]}
 POLY = {"type": "Polygon", "coordinates": [[[-72.0, 41.0], [-70.0, 41.0], [-70.0, 43.0], [-72.0, 43.0], [-72.0, 41.0]]]}
@@ -296,7 +299,8 @@ def rand_cfg(r):
              ("qartod", "location_test", "loc_bbox"), ("qartod", "rate_of_change_test", "roc_scalar"),
              ("qartod", "flat_line_test", "flat_ints"), ("qartod", "aggregate", "null"),
              ("argo", "pressure_increasing_test", "null"), ("argo", "pressure_increasing_test", "empty"),
-             ("axds", "valid_range_test", "valid_mixed")]
+             ("axds", "valid_range_test", "valid_mixed"), ("qartod", "climatology_test", "clim_dates"),
+             ("qartod", "spike_test", "words")]
     unknown = [("not_a_module", "some_test", "empty"), ("qartod", "not_a_test", "gross_full"), ("argo", "nope", "null")]
     nctx = r.choice([1, 1, 1, 2, 3])
     cfg = []
